@@ -20,6 +20,28 @@ ASSUMPTIONS = ["CPython ast parser", "canboat.json is the oracle", "sym.py parti
 
 def enc_missing(chk, program):
     fn = program.fn('message', 'NMEA2000Message.get_field_by_id')
+    # decided on the interpreted method (absint): a message with fields a, b, a -> 'a' gives the first a, 'b' gives b, an id that is not there raises
+    # ValueError, so does any id on a message without fields -- whatever the spelling (next(generator), a loop with an early return, ...)
+    from .. import absint as A
+    try:
+        fa, fb, fc = A.AObj(id=A.AStr([('lit', 'a')]), n=1), A.AObj(id=A.AStr([('lit', 'b')]), n=2), A.AObj(id=A.AStr([('lit', 'a')]), n=3)
+        cls = program.cls('message', 'NMEA2000Message')
+        methods = {n.name: n for n in cls.body if isinstance(n, ast.FunctionDef)}
+        def run(fields, fid):
+            msg = A.AObj(fields=A.AList(list(fields)), PGN=A.AInt(1), id=A.AStr([('lit', 'x')]))
+            try:
+                return ('return', A.Interp(methods=methods).call_function(fn, [msg, A.AStr([('lit', fid)])]))
+            except A.RaiseSignal as r:
+                return ('raise', A.exc_kind(r))
+        got = {'first-of-duplicates': run([fa, fb, fc], 'a'), 'second': run([fa, fb, fc], 'b'), 'missing': run([fa, fb, fc], 'zz'), 'no-fields': run([], 'a')}
+        want = {'first-of-duplicates': ('return', fa), 'second': ('return', fb), 'missing': ('raise', 'ValueError'), 'no-fields': ('raise', 'ValueError')}
+        ok = all(got[k][0] == want[k][0] and (got[k][1] is want[k][1] if want[k][0] == 'return' else got[k][1] == want[k][1]) for k in want)
+        chk.check(ok, 'ENC-MISSING', 'NMEA2000Message.get_field_by_id', file='nmea2000/message.py', line=fn.lineno, func='get_field_by_id',
+                  expected='first field with f.id == id, else raise ValueError (no path returns None / a default)',
+                  found='ok' if ok else {k: (v[0], (v[1].attrs.get('n') if isinstance(v[1], A.AObj) else repr(v[1]))) for k, v in got.items()})
+        return
+    except A.Unknown as u:
+        chk.unit('get_field_by_id_not_interpretable', str(u))
     ex = sym.SymExec(fn)
     try:
         ex.run()
